@@ -523,6 +523,14 @@ func c06Gen(rng *rand.Rand) *metaCase {
 		}
 		feats["exclude-file-in-two-contexts"] = true
 	}
+	// an exclude file with a prefix / suffix line of its own (its text is wrapped in a block as well): the block lines of
+	// the include file are not entries it could exclude
+	if core.Chance(rng, 1, 6) {
+		p.Files.Include["pfxfile"] = "##!^ pre\nalpha\nbeta\ngamma\n"
+		p.Files.Exclude["sfxx"] = core.Pick(rng, "##!$ sfx\nbeta\n", "##!^ other\n##!$ sfx\nbeta\n", "##!^ pre\nbeta\n")
+		main = append(main, "##!> include-except pfxfile sfxx", "z")
+		feats["exclude-file-with-affix"] = true
+	}
 	// an include file with two blocks: their identical start, marker and end lines are all kept
 	if core.Chance(rng, 1, 5) {
 		p.Files.Include["twoblocks"] = "##!> assemble\n  a1\n  ##!=>\n  b1\n##!<\n##!> assemble\n  a2\n  ##!=>\n  b2\n##!<\nplainentry\n"
